@@ -491,6 +491,70 @@ func genParseIntString(r *h.Rng, radix int) string {
 
 var parseIntFixed = []string{"", " ", "-", "+", "0", "-0", "+0", " -0", "-00", "-0x0", "0x", "0X", "0x0", "-0x", "0xg", "0x1F", "-0X1f", "  0x10  ", "010", "08", "0b11", "1e3", "12.9", "-12.9", "  42abc", "abc", "z", "Z", "zz", "9223372036854775807", "9223372036854775808", "-9223372036854775808", "-9223372036854775809", "18446744073709551616", "9007199254740993", "-9007199254740993", "0x8000000000000000", "0x8000000000000401", "0x7fffffffffffffff", "0xffffffffffffffff", "0x20000000000000180000", "123456789012345678901234567890", "1111111111111111111111111111111111111111111111111111111111111111", "Infinity", "-Infinity", "NaN", "\u180e12", "\u200b12", "12\u200b", "1_000", "\u0663", "--1", "+-1", "-+1", "- 1", "1 2", "0x-1", "0x+1", "00x10", "0 x10"}
 
+// argobjRequests: toFixed / toExponential / toPrecision / toString called with a scripted object argument
+// (successive valueOf / toString results: numbers, an object, a throw) on number, Number-object and
+// non-number receivers, incl. NaN and the infinities.
+func argobjRequests(c *h.Ctx, ds []float64) {
+	r := c.Rng
+	meths := []string{"toFixed", "toExponential", "toPrecision", "toString"}
+	recvVals := []float64{0.5, 2.5, 123.456, -1.5, 0, math.Copysign(0, -1), 1e21, 1e-7, 255, math.NaN(), math.Inf(1), math.Inf(-1), 12345678905}
+	argVals := []float64{0, 1, 2, 3, 10, 16, 20, 21, 22, 25, 36, 37, -1, 1.9, 100, 1e9, math.NaN(), math.Inf(1), math.Inf(-1), 0.5, -0.5}
+	item := func() string {
+		switch r.Intn(9) {
+		case 0:
+			return "o"
+		case 1:
+			return "T"
+		default:
+			return h.F64Hex(argVals[r.Intn(len(argVals))])
+		}
+	}
+	script := func() string {
+		n := 1 + r.Intn(3)
+		var p []string
+		for i := 0; i < n; i++ {
+			p = append(p, item())
+		}
+		return strings.Join(p, ",")
+	}
+	recv := func() string {
+		switch r.Intn(8) {
+		case 0:
+			return "x"
+		case 1, 2:
+			return "N:" + h.F64Hex(recvVals[r.Intn(len(recvVals))])
+		case 3:
+			return "p:" + h.F64Hex(math.Trunc(randDouble(r, ds)))
+		default:
+			return "p:" + h.F64Hex(recvVals[r.Intn(len(recvVals))])
+		}
+	}
+	// toString(radix) of a non-integral value is specified only for power-of-two radixes: integral receivers there
+	intRecv := func(m, rv string) string {
+		if m != "toString" || rv == "x" {
+			return rv
+		}
+		return rv[:2] + h.F64Hex(math.Trunc(h.HexF64(rv[2:])))
+	}
+	// the systematic part: check-then-use pairs (in range first, out of range second and vice versa)
+	for _, m := range meths {
+		for _, rv := range []string{"p:" + h.F64Hex(0.5), "p:" + h.F64Hex(math.NaN()), "p:" + h.F64Hex(math.Inf(1)), "N:" + h.F64Hex(255), "x"} {
+			for _, a := range argVals {
+				for _, b := range []float64{1, 25, 1e9, math.NaN()} {
+					c.Add("argobj "+m+" "+intRecv(m, rv)+" "+h.F64Hex(a)+","+h.F64Hex(b)+" "+h.F64Hex(2), "argobj:pairs")
+				}
+			}
+			for _, sc := range [][2]string{{"T", h.F64Hex(1)}, {"o", h.F64Hex(2)}, {"o", "T"}, {"o", "o"}, {"o,T", h.F64Hex(2) + "," + h.F64Hex(99)}} {
+				c.Add("argobj "+m+" "+intRecv(m, rv)+" "+sc[0]+" "+sc[1], "argobj:shapes")
+			}
+		}
+	}
+	for i := 0; i < c.N(6000, 300000); i++ {
+		m := meths[r.Intn(4)]
+		c.Add("argobj "+m+" "+intRecv(m, recv())+" "+script()+" "+script(), "argobj:random")
+	}
+}
+
 // numeric literal source texts (ES5 7.8.3 + B.1.1) and near misses
 func genLiteral(r *h.Rng, doubles []float64) string {
 	switch r.Intn(10) {
@@ -659,6 +723,8 @@ func genStream(c *h.Ctx) {
 		c.Add("radix "+x2(x)+" "+argTok(float64([]int{2, 4, 8, 16, 32}[r.Intn(5)])), "radix:fraction")
 	}
 
+	// --- object arguments: how often / when the digit count or radix is converted
+	argobjRequests(c, ds)
 	// --- text -> number
 	wsEdgeRequests(c)
 	for _, m := range []string{"toString", "toLocaleString", "valueOf", "toFixed", "toExponential", "toPrecision"} {
